@@ -11,7 +11,11 @@ def run(ck):
     K.reference_leg(ck, model, corr)
     inputs = K.gen_inputs(ck, 2800 if ck.quick else 20000, "h")
     e1, f1 = K.chunk_oracle(ck, bindir, "h", inputs, "C03")
-    e2, f2 = K.tree_chunk_oracle(ck, bindir, "h", inputs[: (1200 if ck.quick else 8000)])
+    # the tree-level oracle gets tree-structured documents only (tables with text, templates, select, foreign content ...):
+    # every one is run whole, in one-character chunks (every character token cut everywhere) and in random chunkings
+    import treelib as TL
+    tree_inputs = [TL.gen_tree_html(ck.rng) for _ in range(3000 if ck.quick else 20000)]
+    e2, f2 = K.tree_chunk_oracle(ck, bindir, "h", tree_inputs + inputs[: (600 if ck.quick else 4000)])
     e3, f3 = K.script_inject_oracle(ck, bindir, model, inputs[: (1600 if ck.quick else 8000)])
     ck.cov.update({
         "evaluations": n + e1 + e2 + e3, "distinct_nontrivial": len(set(s for s in inputs if len(s) > 3 and ("<" in s or "&" in s))),
